@@ -78,7 +78,9 @@ def run(ctx):
         if dupsort and not merge:
             fam = M.prefix_related_values(fam, rng)
         failtok = -1
-        if merge and n % 9 == 5:
+        if merge and n % 5 == 3:
+            fam = M.cancelling(fam, rng)            # merged values that shrink and vanish
+        elif merge and n % 9 == 5:
             toks = [t for src in fam for _, ts in src for t in ts]
             if toks:
                 failtok = rng.choice(toks)
@@ -92,6 +94,13 @@ def run(ctx):
         if len(allrecs) > 30000:
             flush(ctx, allrecs, meta)
             allrecs, meta = [], []
+    # nothing to merge: no sources, or only empty tables - iterated and written out with mtbl_source_write (success, an empty table)
+    for j, fam in enumerate([[], [[]], [[], [], []], [[], [(b"k", [1])], []]]):
+        for (mg, ds) in M.MODES:
+            recs = one_family(ctx, b, 6000 + 4 * j + 2 * mg + ds, fam, mg, ds, variants[(j + mg) % 4], srcwrite=True)
+            if recs is not None:
+                allrecs += recs
+                ctx.add("empty_unions", 1)
     # a merge function that gives up late: one key held by 3..5 sources, the failing token in each of them in turn (the fold has
     # already produced intermediate values when the failure comes), keys before and after it
     for j in range(10 if ctx.quick() else 40):
